@@ -7,6 +7,7 @@ import (
 	"io"
 	"math/big"
 	"reflect"
+	"sort"
 	"strings"
 	"unicode"
 	"unicode/utf8"
@@ -617,8 +618,53 @@ func c11ValueTree(msg mocrelay.ClientMsg) any {
 	return fmt.Sprintf("%T", msg)
 }
 
+// c11SameMessage: the value denotes the message of the text. The value lists of a filter
+// (ids, authors, kinds, #x) are conditions "one of", i.e. sets: a gate that hands on a
+// filter with repeated values dropped or reordered hands on the same filter.
 func c11SameMessage(tree any, msg mocrelay.ClientMsg) bool {
-	return reflect.DeepEqual(c11NormTree(tree), c11ValueTree(msg))
+	return reflect.DeepEqual(c11FilterListsAsSets(c11NormTree(tree)), c11FilterListsAsSets(c11ValueTree(msg)))
+}
+
+func c11FilterListsAsSets(tree any) any {
+	l, ok := tree.([]any)
+	if !ok || len(l) < 3 || (l[0] != "REQ" && l[0] != "COUNT") {
+		return tree
+	}
+	out := append([]any{}, l[:2]...)
+	for _, f := range l[2:] {
+		o, ok := f.(map[string]any)
+		if !ok {
+			out = append(out, f)
+			continue
+		}
+		c := map[string]any{}
+		for k, v := range o {
+			vl, isList := v.([]any)
+			if !isList || !(k == "ids" || k == "authors" || k == "kinds" || strings.HasPrefix(k, "#")) {
+				c[k] = v
+				continue
+			}
+			seen := map[string]bool{}
+			keys := []string{}
+			byKey := map[string]any{}
+			for _, e := range vl {
+				ks := fmt.Sprintf("%T:%v", e, e)
+				if !seen[ks] {
+					seen[ks] = true
+					keys = append(keys, ks)
+					byKey[ks] = e
+				}
+			}
+			sort.Strings(keys)
+			set := make([]any, len(keys))
+			for i, ks := range keys {
+				set[i] = byKey[ks]
+			}
+			c[k] = set
+		}
+		out = append(out, c)
+	}
+	return out
 }
 
 // c11Compact re-renders a decoded tree without whitespace or optional escapes.
